@@ -50,10 +50,7 @@ Fixpoint all_discs (vs : list variant) : option (list N) :=
 Definition first_match (arms : list (N * N)) (b : N) : option N :=
   option_map snd (find (fun p => N.eqb (fst p) b) arms).
 
-Definition derive (d : decl) : dres :=
-  match d_variants d with
-  | [] => CompileError      (* `match b { , _ => .. }` does not parse *)
-  | vs =>
+Definition derive_body (d : decl) (vs : list variant) : dres :=
     match all_discs vs with
     | None => CompileError
     | Some ds =>
@@ -79,7 +76,12 @@ Definition derive (d : decl) : dres :=
                     c_mask := repeat None 256; c_unmask := repeat None 256; c_has_mask := false |}
       | _ => CompileError
       end
-    end
+    end.
+
+Definition derive (d : decl) : dres :=
+  match d_variants d with
+  | [] => CompileError      (* `match b { , _ => .. }` does not parse *)
+  | _ :: _ => derive_body d (d_variants d)
   end.
 
 End Derive.
